@@ -117,6 +117,16 @@ static void check_one(Ctx &ctx, const Val &tree, json_object *j, int flags)
 			ctx.fail("reparse", std::string(strict ? "strict" : "default") + " re-parse of the output failed (" +
 			                        json_tokener_error_desc((json_tokener_error)err) + ") under " + fn + ": " + quote(text, 400));
 		}
+		{
+			// independent of json_object_equal: compare through the accessors with the model's own comparison
+			Val b = dump(back);
+			std::string why2;
+			if (!same_val(tree, b, why2, DBL_VALUE))
+			{
+				json_object_put(back);
+				ctx.fail("roundtrip-value", "re-parsed tree differs from the original under " + fn + ": " + why2 + " text=" + quote(text, 300));
+			}
+		}
 		if (!json_object_equal(j, back))
 		{
 			Val b = dump(back);
